@@ -3,7 +3,7 @@ import numpy as np
 
 from vmon.oracle import geometry as G
 
-CLASSES = ["single", "pair_hetero", "pair_homo", "collinear3", "planar_d3h", "pyramid_c3v", "twofold", "asym4", "asym5", "asym6", "chiral4", "chiral5"]
+CLASSES = ["single", "pair_hetero", "pair_homo", "collinear3", "planar_d3h", "pyramid_c3v", "twofold", "asym4", "asym5", "asym6", "chiral4", "chiral5", "planar_mirror_pair"]
 
 
 def _min_dist(pos):
@@ -64,6 +64,26 @@ def make(rng, cls):
             break
         els, pos = best
         chiral = True
+    elif cls == "planar_mirror_pair":
+        # four or five coplanar atoms without in-plane symmetry, then two like atoms that mirror each other across that plane
+        # (a methyl/methylene on a ring): distances to the coplanar atoms cannot tell the two apart
+        m = int(rng.integers(4, 6))
+        ang = np.sort(rng.uniform(0, 2 * np.pi, m)) + np.arange(m) * 0.35
+        rad = rng.uniform(1.1, 1.9, m)
+        ring = np.stack([rad * np.cos(ang), rad * np.sin(ang), np.zeros(m)], axis=1)
+        for _ in range(200):
+            if _min_dist(ring) >= 1.0:
+                break
+            ang = np.sort(rng.uniform(0, 2 * np.pi, m)) + np.arange(m) * 0.35
+            ring = np.stack([rad * np.cos(ang), rad * np.sin(ang), np.zeros(m)], axis=1)
+        base = ring[0] * (1 + 1.0 / np.linalg.norm(ring[0]))
+        h = rng.uniform(0.7, 1.0)
+        pair = np.array([base + [0, 0, h], base + [0, 0, -h]])
+        els = [["C", "N", "C", "O", "S"][i] for i in range(m)] + ["H", "H"]
+        pos = np.vstack([ring, pair])
+        if rng.integers(3) == 0:       # the pair listed first
+            els = els[m:] + els[:m]
+            pos = np.vstack([pair, ring])
     elif cls == "close_pair":
         # a pattern with two same-element atoms closer to each other than the larger tolerances (0.2, 0.5): one structure
         # atom then satisfies every distance test for both of them - the search must still list distinct atoms
